@@ -195,15 +195,19 @@ def balance (pol : Policy) (inMsat outMsat : Nat) (inv : Option Nat) : VRes :=
       | none => .err
       | some x => if x / max a 1 > pol.feePct then .err else .ok
 
+/-- `if let Some((inc, out)) = p.get_cltv_bounds() { validator.validate_payment_cltv(inc, out)? }` -/
+def cltvGate (pol : Policy) (p : Payment) : Bool :=
+  match p.cltvMin, p.cltvMax with
+  | some a, some b => cltvOk pol a b
+  | _, _ => true
+
 /-- One iteration of the preflight loop of `validate_payments` for hash `h` on channel `c`, the channel
     moving to `(ni, no)`.  `.ok` includes the tolerated imbalance of an uninvoiced *existing* payment
     (TODO(331) branch); `.err` = cltv refusal or the hash is pushed to `unbalanced`. -/
 def checkHash (invoices : Hash → Option Invoice) (payments : Hash → Option Payment) (pol : Policy)
     (nch : Nat) (c : Chan) (ni no : Nat) (h : Hash) : VRes :=
   let cl : Bool := match payments h with
-    | some p => (match p.cltvMin, p.cltvMax with
-                 | some a, some b => cltvOk pol a b
-                 | _, _ => true)
+    | some p => cltvGate pol p
     | none => true
   if !cl then .err else
   let io : Option (Nat × Nat) := match payments h with
@@ -245,6 +249,7 @@ def Node.setChan (n : Node) (c : Chan) (st : ChanSt) : Node := { n with chans :=
     validated and applied again, the stored info is not replaced. -/
 def Node.cpSign (n : Node) (c : Chan) (retry : Bool) (info : Info) : Node × VRes :=
   let st := n.chans c
+  if c ≥ n.nch then (n, .err) else   -- unknown channel: `with_channel` fails
   if retry && info != st.ccur then (n, .err) else
   if !retry && st.cpNum != st.cpRev + 1 then (n, .err) else
   match validate n c st.hcur info with
@@ -258,11 +263,13 @@ def Node.cpSign (n : Node) (c : Chan) (retry : Bool) (info : Info) : Node × VRe
     commitment has a signed successor. No effect on the payments. -/
 def Node.cpRevoke (n : Node) (c : Chan) : Node × VRes :=
   let st := n.chans c
+  if c ≥ n.nch then (n, .err) else
   if st.cpRev + 2 = st.cpNum then (n.setChan c { st with cpRev := st.cpRev + 1 }, .ok) else (n, .err)
 
 /-- `validate_holder_commitment_tx_phase2`: validate only; a new commitment is remembered as `hnext`. -/
 def Node.hValidate (n : Node) (c : Chan) (retry : Bool) (info : Info) : Node × VRes :=
   let st := n.chans c
+  if c ≥ n.nch then (n, .err) else
   if retry && info != st.hcur then (n, .err) else
   match validate n c info st.ccur with
   | .ok => (if retry then n else n.setChan c { st with hnext := some info }, .ok)
@@ -271,6 +278,7 @@ def Node.hValidate (n : Node) (c : Chan) (retry : Bool) (info : Info) : Node × 
 /-- `revoke_previous_holder_commitment` (after the fix: re-validate, keep `hnext` when refused). -/
 def Node.revoke (n : Node) (c : Chan) : Node × VRes :=
   let st := n.chans c
+  if c ≥ n.nch then (n, .err) else
   match st.hnext with
   | none => (n, .err)
   | some info =>
